@@ -73,6 +73,7 @@ type Node struct {
 	lock            sync.Mutex
 	untrustedLock   sync.Mutex
 	blockLock       sync.Mutex
+	txStateLock     sync.Mutex // held while a stored tx state is read, modified, saved and sent
 
 	txFetcher     TxFetcher
 	outputFetcher OutputFetcher
@@ -991,19 +992,25 @@ func (node *Node) checkTxDelays(ctx context.Context) {
 		}
 
 		for _, txid := range txids {
+			// Hold the tx state lock so an unsafe, cancelled or confirmed state written by another
+			// thread after the fetch is not overwritten with a stale copy.
+			node.txStateLock.Lock()
 			txState, err := internalStorage.FetchTxState(ctx, node.store, txid)
 			if err != nil {
+				node.txStateLock.Unlock()
 				logger.Error(ctx, "SpyNodeFailed fetch tx state : %s", err)
 				continue
 			}
 
 			if txState.State.UnSafe || txState.State.Cancelled {
+				node.txStateLock.Unlock()
 				continue
 			}
 
 			txState.State.Safe = true
 
 			if err := internalStorage.SaveTxState(ctx, node.store, txState); err != nil {
+				node.txStateLock.Unlock()
 				logger.Error(ctx, "SpyNodeFailed save tx state : %s", err)
 				continue
 			}
@@ -1016,6 +1023,7 @@ func (node *Node) checkTxDelays(ctx context.Context) {
 			for _, handler := range node.handlers {
 				handler.HandleTxUpdate(ctx, update)
 			}
+			node.txStateLock.Unlock()
 		}
 	}
 }
